@@ -4,7 +4,7 @@ CONSTANTS
   Order <- OrderDef
   HasExt <- HasExtDef
   AtomicWrite = FALSE
-  ParseInWrite = FALSE
+  ParseInWrite = TRUE
 INVARIANT Report
 INVARIANT TraceAtomic
 INVARIANT TracePersistFirst
